@@ -179,6 +179,79 @@ theorem run_elems (n : Nat) : ∀ (es : List (Bytes × Scal)) (after : Bytes) (f
     congr 1
     simp [elemToks, hst]
 
+theorem blank_rbr : isBlank 93 = false := by decide +kernel
+theorem blank_open_br : isBlank 91 = false := by decide +kernel
+
+/-- Key sees `[[name]` / `[[!name]`: a parameter definition (not the first thing in a container). -/
+theorem step_key_param {n : Nat} {st : St} {g0 : Bytes} {isU : Bool} {name : Bytes} (hst : st.state = .key)
+    (hg : Blank g0) (hn : ParamName name) (Y : Bytes) :
+    step n st (g0 ++ (91 :: 91 :: ((if isU then [33] else []) ++ (name ++ 93 :: Y)))) =
+      pdAfter st.mixed st.tape st.parent isU (name ++ 93 :: Y).length name Y := by
+  simp only [step, skipWs_blank hg, skipWs_cons _ blank_open_br (by decide), stepAt, hst]
+  simp only [stepKey, show ¬((91 : UInt8) = 125 ∨ (91 : UInt8) = 93) by decide, show (91 : UInt8) ≠ 123 by decide,
+    if_false, if_true, paramDef, List.getElem?_cons_succ, List.getElem?_cons_zero, ne_eq, not_true_eq_false,
+    paramDefPre, Bool.false_eq_true]
+  exact paramDefBody_name st.mixed st.tape st.parent isU hn Y
+
+/-- `pdAfter`, value form `[[name] value ]`. -/
+theorem pdAfter_val (mixed : Bool) (tape : List Tok) (parent : Nat) (isU : Bool) (nt : Nat) (name : Bytes)
+    {g1 g2 : Bytes} {val : Scal} (h1 : Blank g1) (h2 : Blank g2) (hv : val.Valid) (hq : val.quoted = false)
+    (R : Bytes) (hsb : StartsBoundary (g2 ++ 93 :: R)) :
+    pdAfter mixed tape parent isU nt name (g1 ++ (val.text ++ (g2 ++ 93 :: R))) =
+      .cont { state := .key, mixed := mixed, parent := parent,
+              tape := tape ++ [paramTok isU ⟨nt, name⟩] ++
+                [.unquoted ⟨(val.text ++ (g2 ++ 93 :: R)).length, val.bytes⟩] } R := by
+  have htext : val.text = val.bytes := by simp [Scal.text, hq]
+  have hvv := hv
+  unfold Scal.Valid at hvv
+  simp only [hq, Bool.false_eq_true, if_false] at hvv
+  have hne : val.bytes ≠ [] := by obtain ⟨_, c', r', hs', _⟩ := hvv; simp [hs']
+  have hsp := splitAtScalar_token hne hvv.1 hsb
+  unfold pdAfter
+  simp only [skipWs_blank h1, skipWs_scal hv]
+  simp only [htext, hsp, skipWs_blank h2, skipWs_cons R blank_rbr (by decide), if_true]
+
+/-- `pdAfter`, object form `[[name] key op …`. -/
+theorem pdAfter_obj (mixed : Bool) (tape : List Tok) (parent : Nat) (isU : Bool) (nt : Nat) (name : Bytes)
+    {g1 g2 : Bytes} {k : Scal} {o : Op} (h1 : Blank g1) (h2 : Blank g2) (hv : k.Valid) (hq : k.quoted = false)
+    (Z : Bytes) (hsb : StartsBoundary (g2 ++ o.text)) :
+    pdAfter mixed tape parent isU nt name (g1 ++ (k.text ++ (g2 ++ (o.text ++ Z)))) =
+      .cont { state := .kvs, mixed := mixed, parent := (tape ++ [paramTok isU ⟨nt, name⟩]).length,
+              tape := tape ++ [paramTok isU ⟨nt, name⟩] ++
+                [.object parent false, .unquoted ⟨(k.text ++ (g2 ++ (o.text ++ Z))).length, k.bytes⟩] }
+        (o.text ++ Z) := by
+  have htext : k.text = k.bytes := by simp [Scal.text, hq]
+  have hvv := hv
+  unfold Scal.Valid at hvv
+  simp only [hq, Bool.false_eq_true, if_false] at hvv
+  have hne : k.bytes ≠ [] := by obtain ⟨_, c', r', hs', _⟩ := hvv; simp [hs']
+  have hsb' : StartsBoundary (g2 ++ (o.text ++ Z)) := by
+    rcases hsb with h | ⟨c, r, h, hc⟩
+    · have : o.text ≠ [] := by cases o <;> simp [Op.text]
+      simp at h; exact absurd h.2 this
+    · exact .inr ⟨c, r ++ Z, by rw [← List.cons_append, ← h]; simp, hc⟩
+  have hsp := splitAtScalar_token hne hvv.1 hsb'
+  have h93 : ∀ c r, o.text = c :: r → c ≠ 93 := by
+    intro c r h; cases o <;> simp [Op.text] at h <;> (rw [← h.1]; decide)
+  unfold pdAfter
+  simp only [skipWs_blank h1, skipWs_scal hv]
+  simp only [htext, hsp, skipWs_blank h2, skipWs_op]
+  cases ho : o.text with
+  | nil => cases o <;> simp [Op.text] at ho
+  | cons c r => simp [h93 c r ho]
+
+/-- Key sees `]`: like `}`. -/
+theorem step_key_close_br {n : Nat} {st : St} {gc X : Bytes} {P : Nat} {r : PState} (hst : st.state = .key)
+    (hg : Blank gc) (hp : st.parent ≠ 0) (hlt : st.parent < st.tape.length)
+    (hpt : st.tape[st.parent]? = some (.object P false))
+    (hcs : closeState st.tape[P]? = (false, r)) :
+    step n st (gc ++ 93 :: X) =
+      .cont { state := r, mixed := false, parent := P,
+              tape := (st.tape ++ [Tok.endTok st.parent]).set st.parent (.object st.tape.length st.mixed) } X := by
+  simp only [step, skipWs_blank hg, skipWs_cons X blank_rbr (by decide), stepAt, hst]
+  have hlt' : st.parent < st.tape.length + 1 := by omega
+  simp [stepKey, hpt, endOf, hcs, hp, setTok, hlt']
+
 theorem closeState_append {T R : List Tok} {P : Nat} (h : P < T.length) :
     closeState (T ++ R)[P]? = closeState T[P]? := by
   rw [List.getElem?_append_left h]
@@ -284,6 +357,13 @@ theorem len_jtapeF : ∀ (fs : JFields) (b : Nat) (a : Bytes), (jtapeF fs b a).l
   | .ghost _ _ rest, b, a => by simp only [jtapeF, jcntF, len_jtapeF rest]
   | .consHdr _ _ _ o _ _ body rest, b, a => by
     simp only [jtapeF, jcntF, List.length_append, List.length_cons, List.length_nil, len_jtapeV body, len_jtapeF rest]
+    try omega
+  | .paramVal _ _ _ _ _ _ rest, b, a => by
+    simp only [jtapeF, jcntF, List.length_append, List.length_cons, List.length_nil, len_jtapeF rest]
+    try omega
+  | .paramObj _ _ _ _ _ _ o v inner _ rest, b, a => by
+    simp only [jtapeF, jcntF, List.length_append, List.length_cons, List.length_nil, len_jtapeV v, len_jtapeF inner,
+      len_jtapeF rest]
     try omega
 theorem len_jtapeVs : ∀ (vs : JVals) (b : Nat) (a : Bytes), (jtapeVs vs b a).length = jcntVs vs
   | .nil, _, _ => by simp [jtapeVs, jcntVs]
@@ -442,6 +522,34 @@ theorem Scal.tok_plain (k : Scal) (X : Bytes) :
     ∀ e m, some (k.tok X) ≠ some (Tok.array e m) ∧ some (k.tok X) ≠ some (Tok.object e m) := by
   intro e m; unfold Scal.tok; split <;> simp
 
+/-- the context after a plain token has been pushed in Key state (possibly onto the empty tape). -/
+theorem Ctx3.after_plain {st : St} (hc : Ctx3 st) (hst : st.state = .key) (t : Tok)
+    (ht : ∀ e m, some t ≠ some (Tok.array e m) ∧ some t ≠ some (Tok.object e m))
+    (R : List Tok) (s : PState) (hs : ret s = .key) :
+    Ctx3 (St.mk s st.mixed st.parent (st.tape ++ t :: R)) := by
+  by_cases hne : st.tape = []
+  · have hp : st.parent = 0 := by
+      rcases hc.plt with h | h
+      · simp [hne] at h
+      · exact h
+    refine ⟨hc.mixed, ?_, .inr hp, ?_⟩
+    · intro e m; simp only [hne, List.nil_append, List.getElem?_cons_zero]; exact ht e m
+    · simp only [hne, hp, List.nil_append, List.getElem?_cons_zero, hs]
+      exact closeState_plain ht
+  · exact hc.append hne (t :: R) s (by rw [hs, hst]; rfl)
+
+theorem paramTok_plain (b : Bool) (sl : Slice) :
+    ∀ e m, some (paramTok b sl) ≠ some (Tok.array e m) ∧ some (paramTok b sl) ≠ some (Tok.object e m) := by
+  intro e m; cases b <;> simp [paramTok]
+
+/-- closing the object of a parameter block whose parent is described by `Ctx3` (the tape in
+front of the block may be empty). -/
+theorem Ctx3.close_after_plain {st : St} (hc : Ctx3 st) (hst : st.state = .key) (t : Tok)
+    (ht : ∀ e m, some t ≠ some (Tok.array e m) ∧ some t ≠ some (Tok.object e m)) (R : List Tok) :
+    closeState (st.tape ++ t :: R)[st.parent]? = (false, .key) := by
+  have := (hc.after_plain hst t ht R .key rfl).close
+  simpa using this
+
 /-- the context after a key has been pushed in Key state (possibly onto the empty tape). -/
 theorem Ctx3.after_key {st : St} (hc : Ctx3 st) (hst : st.state = .key) (k : Scal) (X : Bytes)
     (R : List Tok) (s : PState) (hs : ret s = .key) :
@@ -466,6 +574,11 @@ theorem skipWs_elemsS_some {es : List (Bytes × Scal)} {a : Bytes} (hv : ElemsVa
     obtain ⟨g, s⟩ := e
     simp only [ElemsValid] at hv
     exact ⟨_, by simp only [renderElems, List.append_assoc]; rw [skipWs_blank hv.1, skipWs_scalX hv.2.1]⟩
+
+theorem set_append_second {α} (A : List α) (a b X : α) (R : List α) :
+    (A ++ a :: b :: R).set (A.length + 1) X = A ++ a :: X :: R := by
+  rw [List.set_append_right _ _ (by omega)]
+  simp
 
 /-- two states are equal when their fields are. -/
 theorem St.ext' {a b : St} (h1 : a.state = b.state) (h2 : a.mixed = b.mixed) (h3 : a.parent = b.parent)
@@ -774,6 +887,79 @@ theorem jrun_F (n : Nat) : ∀ (fs : JFields) (after : Bytes) (fuel : Nat) (st :
     simp only [jtapeF, List.length_append, List.length_cons, List.length_nil, len_jtapeV, List.append_assoc,
       List.cons_append, List.nil_append]
     simp only [Nat.add_assoc, Nat.add_comm, Nat.add_left_comm, Nat.zero_add]
+  | .paramVal g0 isU name g1 val g2 rest, after, fuel, st, hv, hst, hc => by
+    simp only [JValidF] at hv
+    obtain ⟨h0, h1, h2, hn, hval, hq, hsb, hvr⟩ := hv
+    have hfuel : fuel + jstepsF (.paramVal g0 isU name g1 val g2 rest) = (fuel + jstepsF rest) + 1 := by
+      simp only [jstepsF]; omega
+    rw [hfuel]
+    simp only [jrenderF, paramOpen, List.append_assoc, List.cons_append, List.nil_append]
+    have hstep := step_key_param (n := n) (isU := isU) hst h0 hn
+      (g1 ++ (val.text ++ (g2 ++ 93 :: (jrenderF rest ++ after))))
+    rw [pdAfter_val _ _ _ _ _ _ h1 h2 hval hq _ hsb] at hstep
+    rw [run_cont hstep]
+    simp only [List.append_assoc, List.cons_append, List.nil_append]
+    rw [jrun_F n rest after _ _ hvr rfl (hc.after_plain hst _ (paramTok_plain _ _) _ .key rfl)]
+    congr 1
+    refine St.ext' hst.symm rfl rfl ?_
+    simp only [jtapeF, List.length_append, List.length_cons, List.length_nil, List.append_assoc,
+      List.cons_append, List.nil_append]
+  | .paramObj g0 isU name g1 k g2 o v inner gc rest, after, fuel, st, hv, hst, hc => by
+    simp only [JValidF] at hv
+    obtain ⟨h0, h1, h2, hgc, hn, hk, hq, hsb, hvv, hvi, hvr⟩ := hv
+    have hfuel : fuel + jstepsF (.paramObj g0 isU name g1 k g2 o v inner gc rest) =
+        (((((fuel + jstepsF rest) + 1) + jstepsF inner) + jstepsV v) + 1) + 1 := by
+      simp only [jstepsF]; omega
+    rw [hfuel]
+    simp only [jrenderF, paramOpen, List.append_assoc, List.cons_append, List.nil_append]
+    have hstep := step_key_param (n := n) (isU := isU) hst h0 hn
+      (g1 ++ (k.text ++ (g2 ++ (o.text ++ (jrenderV v ++ (jrenderF inner ++ (gc ++ 93 :: (jrenderF rest ++ after))))))))
+    rw [pdAfter_obj _ _ _ _ _ _ h1 h2 hk hq _ hsb] at hstep
+    rw [run_cont hstep]
+    -- operator
+    have hop := step_kvs_op (n := n) (g := []) (o := o)
+      (st := St.mk .kvs st.mixed
+        (st.tape ++ [paramTok isU ⟨(name ++ 93 :: (g1 ++ (k.text ++ (g2 ++ (o.text ++ (jrenderV v ++
+          (jrenderF inner ++ (gc ++ 93 :: (jrenderF rest ++ after))))))))).length, name⟩]).length
+        (st.tape ++ [paramTok isU ⟨(name ++ 93 :: (g1 ++ (k.text ++ (g2 ++ (o.text ++ (jrenderV v ++
+          (jrenderF inner ++ (gc ++ 93 :: (jrenderF rest ++ after))))))))).length, name⟩] ++
+          [.object st.parent false, .unquoted ⟨(k.text ++ (g2 ++ (o.text ++ (jrenderV v ++
+            (jrenderF inner ++ (gc ++ 93 :: (jrenderF rest ++ after))))))).length, k.bytes⟩]))
+      (Y := jrenderV v ++ (jrenderF inner ++ (gc ++ 93 :: (jrenderF rest ++ after)))) rfl hc.mixed .nil
+      (head_jrenderV v _ _ hvv)
+    simp only [List.nil_append] at hop
+    rw [run_cont hop]
+    simp only [List.append_assoc, List.cons_append, List.nil_append, hc.mixed]
+    -- the context inside the block: the object sits right behind the parameter token
+    have hctx0 := hc.after_plain hst (paramTok isU ⟨(name ++ 93 :: (g1 ++ (k.text ++ (g2 ++ (o.text ++ (jrenderV v ++
+          (jrenderF inner ++ (gc ++ 93 :: (jrenderF rest ++ after))))))))).length, name⟩) (paramTok_plain _ _) [] .key rfl
+    have hne1 : (St.mk PState.key st.mixed st.parent (st.tape ++ [paramTok isU ⟨(name ++ 93 :: (g1 ++ (k.text ++
+        (g2 ++ (o.text ++ (jrenderV v ++ (jrenderF inner ++ (gc ++ 93 :: (jrenderF rest ++ after))))))))).length,
+        name⟩])).tape ≠ [] := by simp
+    have hin := fun R s h => Ctx3.inner hctx0 hne1 (.object st.parent false) R s h
+    simp only [List.length_append, List.length_cons, List.length_nil, List.append_assoc, List.cons_append,
+      List.nil_append] at hin
+    rw [jrun_V n v (jrenderF inner ++ (gc ++ 93 :: (jrenderF rest ++ after))) _ _ hvv (.inl rfl)
+      (by simpa using hin _ .objectValue rfl) (by simp)]
+    simp only [ret_ov, List.append_assoc, List.cons_append, List.nil_append]
+    rw [jrun_F n inner (gc ++ 93 :: (jrenderF rest ++ after)) _ _ hvi rfl (by simpa using hin _ .key rfl)]
+    -- `]`
+    rw [run_cont (step_key_close_br (P := st.parent) (r := .key) rfl hgc (by simp) (by simp)
+      (by simp) (by simpa using hc.close_after_plain hst _ (paramTok_plain _ _) _))]
+    simp only [List.append_assoc, List.cons_append, List.nil_append, List.length_append, List.length_cons,
+      List.length_nil]
+    rw [set_append_second]
+    have hctxR := fun R => hc.after_plain hst (paramTok isU ⟨(name ++ 93 :: (g1 ++ (k.text ++ (g2 ++ (o.text ++
+      (jrenderV v ++ (jrenderF inner ++ (gc ++ 93 :: (jrenderF rest ++ after))))))))).length, name⟩)
+      (paramTok_plain _ _) R .key rfl
+    simp only [hc.mixed, List.length_append, List.length_cons, List.length_nil] at hctxR
+    rw [jrun_F n rest after _ _ hvr rfl (hctxR _)]
+    congr 1
+    refine St.ext' hst.symm (by simp [hc.mixed]) rfl ?_
+    simp only [jtapeF, List.length_append, List.length_cons, List.length_nil, len_jtapeV, len_jtapeF,
+      List.append_assoc, List.cons_append, List.nil_append]
+    simp only [show (2 : Nat) = 1 + 1 from rfl, show (3 : Nat) = 1 + 1 + 1 from rfl]
+    simp only [Nat.add_assoc, Nat.add_comm, Nat.add_left_comm, Nat.zero_add]
 theorem jrun_Vs (n : Nat) : ∀ (vs : JVals) (after : Bytes) (fuel : Nat) (st : St),
     JValidVs vs after → st.state = .arrayValue → Ctx3 st → st.tape ≠ [] →
     run n (fuel + jstepsVs vs) st (jrenderVs vs ++ after) =
@@ -878,6 +1064,19 @@ theorem jstepsF_le : ∀ (fs : JFields) (a : Bytes), JValidF fs a → jstepsF fs
     have h3 := jstepsV_le body _ hvb
     have h4 := jstepsF_le rest _ hvr
     simp only [jstepsF, jrenderF, List.length_append]; omega
+  | .paramVal g0 isU name g1 val g2 rest, a, hv => by
+    simp only [JValidF] at hv
+    have h4 := jstepsF_le rest _ hv.2.2.2.2.2.2.2
+    simp only [jstepsF, jrenderF, paramOpen, List.length_append, List.length_cons]; omega
+  | .paramObj g0 isU name g1 k g2 o v inner gc rest, a, hv => by
+    simp only [JValidF] at hv
+    obtain ⟨_, _, _, _, _, hk, _, _, hvv, hvi, hvr⟩ := hv
+    have h1 := hk.text_pos
+    have h2 := o.text_pos
+    have h3 := jstepsV_le v _ hvv
+    have h4 := jstepsF_le inner _ hvi
+    have h5 := jstepsF_le rest _ hvr
+    simp only [jstepsF, jrenderF, paramOpen, List.length_append, List.length_cons]; omega
 theorem jstepsVs_le : ∀ (vs : JVals) (a : Bytes), JValidVs vs a → jstepsVs vs ≤ 2 * (jrenderVs vs).length
   | .nil, _, _ => by simp [jstepsVs]
   | .cons v rest, a, hv => by
@@ -927,6 +1126,9 @@ theorem kcnt_F : ∀ fs : JFields, kcntF (kcontentF fs) = jcntF fs
   | .ghost _ _ rest => by simp only [kcontentF, jcntF, kcnt_F rest]
   | .consHdr _ _ _ o _ _ body rest => by
     simp only [kcontentF, kcntF, kcntV, jcntF, kcnt_V body, kcnt_F rest]
+  | .paramVal _ _ _ _ _ _ rest => by simp only [kcontentF, kcntF, jcntF, kcnt_F rest]
+  | .paramObj _ _ _ _ _ _ o v inner _ rest => by
+    simp only [kcontentF, kcntF, jcntF, kcnt_V v, kcnt_F inner, kcnt_F rest]; omega
 theorem kcnt_Vs : ∀ vs : JVals, kcntVs (kcontentVs vs) = jcntVs vs
   | .nil => rfl
   | .cons v rest => by simp only [kcontentVs, kcntVs, jcntVs, kcnt_V v, kcnt_Vs rest]
@@ -988,6 +1190,18 @@ theorem jtapeF_erase : ∀ (fs : JFields) (b : Nat) (a : Bytes),
     simp only [jtapeF, kcontentF, ktapeF, ktapeV, kcntV, List.map_append, List.map_cons, List.map_nil,
       Scal.tok_erase k, Op.toks_erase, jtapeV_erase body, jtapeF_erase rest, kcnt_V, he,
       List.append_assoc, List.cons_append, List.nil_append]
+  | .paramVal _ isU name g1 val g2 rest, b, a => by
+    have hq : ∀ X, (Tok.unquoted ⟨X, val.bytes⟩).erase = .unquoted ⟨0, val.bytes⟩ := fun _ => rfl
+    simp only [jtapeF, kcontentF, ktapeF, List.map_append, List.map_cons, List.map_nil, paramTok_erase, hq,
+      jtapeF_erase rest]
+  | .paramObj _ isU name g1 k g2 o v inner gc rest, b, a => by
+    have hq : ∀ X, (Tok.unquoted ⟨X, k.bytes⟩).erase = .unquoted ⟨0, k.bytes⟩ := fun _ => rfl
+    simp only [jtapeF, kcontentF, ktapeF, kcntF, List.map_append, List.map_cons, List.map_nil, paramTok_erase, hq,
+      Op.toks_erase, jtapeV_erase v, jtapeF_erase inner, jtapeF_erase rest, kcnt_V, kcnt_F, erase_object,
+      erase_endTok, List.append_assoc, List.cons_append, List.nil_append]
+    have hk0 : ((Scal.mk false k.bytes).tok []).erase = Tok.unquoted ⟨0, k.bytes⟩ := rfl
+    simp only [hk0, show (2 : Nat) = 1 + 1 from rfl, show (3 : Nat) = 1 + 1 + 1 from rfl]
+    simp only [Nat.add_assoc, Nat.add_comm, Nat.add_left_comm]
 theorem jtapeVs_erase : ∀ (vs : JVals) (b : Nat) (a : Bytes),
     (jtapeVs vs b a).map Tok.erase = ktapeVs (kcontentVs vs) b
   | .nil, _, _ => rfl
@@ -1149,5 +1363,36 @@ theorem exampleMixed_valid :
     mix_concrete (d := [101, 125, 10]) (by decide +kernel) (by decide +kernel) (by decide),
     sp, u 101 (by decide +kernel) (by decide +kernel) (by decide) (by decide),
     fun _ => hb 125 (by decide +kernel) _⟩
+
+/-- `[[x] a=b c=d ] [[!y] v ] e=f` + newline: parameter blocks, object and value form. -/
+def exampleParam : JFields :=
+  .paramObj [] false [120] [32] ⟨false, [97]⟩ [] .eq (.scal [] ⟨false, [98]⟩)
+    (.cons [32] ⟨false, [99]⟩ [] .eq (.scal [] ⟨false, [100]⟩) .nil) [32]
+    (.paramVal [32] true [121] [32] ⟨false, [118]⟩ [32]
+      (.cons [32] ⟨false, [101]⟩ [] .eq (.scal [] ⟨false, [102]⟩) .nil))
+
+example : parse (jrenderF exampleParam ++ [10]) = .ok (jtapeF exampleParam 0 [10]) false := by
+  decide +kernel
+
+theorem exampleParam_valid :
+    JValidF exampleParam [10] ∧ Blank [10] ∧ hasBom (jrenderF exampleParam ++ [10]) = false := by
+  have hb : ∀ c : UInt8, isBoundary c = true → ∀ r, StartsBoundary (c :: r) := fun c h r => .inr ⟨c, r, rfl, h⟩
+  have sp : Blank [32] := .ws 32 [] (by decide +kernel) .nil
+  have uv := unq_valid
+  have u : ∀ c : UInt8, isBoundary c = false → isBlank c = false → c ≠ 34 → c ≠ 64 → (Scal.mk false [c]).ValidX :=
+    fun c a b d e => .inl (unq_valid c a b d e)
+  have pn : ∀ c : UInt8, isBoundary c = false → IsParamName [c] := fun c h => ⟨by simp, by simpa using h⟩
+  refine ⟨?_, .ws 10 [] (by decide +kernel) .nil, by decide +kernel⟩
+  simp only [exampleParam, JValidF, JValidV, jrenderF, jrenderV, paramOpen, Op.text, Scal.text,
+    List.nil_append, List.append_nil, and_true, true_and]
+  refine ⟨.nil, sp, .nil, sp, pn 120 (by decide +kernel),
+    uv 97 (by decide +kernel) (by decide +kernel) (by decide) (by decide), hb 61 (by decide +kernel) _,
+    ⟨.nil, u 98 (by decide +kernel) (by decide +kernel) (by decide) (by decide), fun _ => hb 32 (by decide +kernel) _⟩,
+    ⟨sp, .nil, u 99 (by decide +kernel) (by decide +kernel) (by decide) (by decide), fun _ => hb 61 (by decide +kernel) _,
+      ⟨.nil, u 100 (by decide +kernel) (by decide +kernel) (by decide) (by decide), fun _ => hb 32 (by decide +kernel) _⟩⟩, ?_⟩
+  exact ⟨sp, sp, sp, pn 121 (by decide +kernel),
+    uv 118 (by decide +kernel) (by decide +kernel) (by decide) (by decide), hb 32 (by decide +kernel) _,
+    sp, .nil, u 101 (by decide +kernel) (by decide +kernel) (by decide) (by decide), fun _ => hb 61 (by decide +kernel) _,
+    ⟨.nil, u 102 (by decide +kernel) (by decide +kernel) (by decide) (by decide), fun _ => hb 10 (by decide +kernel) _⟩⟩
 
 end Jomini.TextTape
